@@ -521,9 +521,10 @@ theorem tzif_roundtrip_v2_full' (f : TzFile) (hver : f.version ≠ .V1) (hs1 : B
   refine tzif_roundtrip_v2' f hver hs1 hs2 hv rule hfoot
     (validate_abs f.version f.v2 rule hs2 hv ?_ h1 h2 h3 h4)
   intro r hr
-  rcases hfoot with ⟨-, e⟩ | ⟨r', e, -, hok⟩
+  rcases hfoot with ⟨-, e⟩ | ⟨r', e, hden⟩
   · rw [e] at hr; cases hr
-  · rw [e] at hr; cases hr; exact ruleOk_ruleV _ _ hok
+  · rw [e] at hr; cases hr
+    exact post_spec (post_from_tz_string _ _) (tz_accepts_all' _ _ _ hden)
 
 /-! ### what the parser guarantees of an accepted zone (for C05's lookup theorems) -/
 
